@@ -21,6 +21,30 @@ pub(crate) struct Nodes {
     empties: HashSet<Empty>,
 }
 
+#[cfg(chokan_verif)]
+impl Nodes {
+    /// (base, check) of every slot and the sorted free set — verification hook
+    pub fn verif_dump(&self) -> (Vec<(i32, i32)>, Vec<usize>) {
+        let nodes = self
+            .nodes
+            .iter()
+            .map(|n| {
+                (
+                    n.base.to_string().parse::<i32>().unwrap(),
+                    n.check.to_string().parse::<i32>().unwrap(),
+                )
+            })
+            .collect();
+        let mut empties: Vec<usize> = self
+            .empties
+            .iter()
+            .map(|e| e.verif_index())
+            .collect();
+        empties.sort();
+        (nodes, empties)
+    }
+}
+
 impl Nodes {
     pub fn new() -> Self {
         Nodes {
@@ -140,11 +164,15 @@ impl Nodes {
                     }
                 }
                 if is_ok {
+                    #[cfg(chokan_verif)]
+                    crate::verif::log_xcheck(usize::from(t) as i64);
                     return t;
                 }
             }
         }
 
+        #[cfg(chokan_verif)]
+        crate::verif::log_xcheck(ary_size as i64);
         Base::new(ary_size)
     }
 
